@@ -25,12 +25,18 @@ type SpecEnv struct {
 	prevSt *State // loop lemma hints: the state at the head of the iteration (prev(e))
 	facts  *[]*Term // side facts (instances of pure-function contracts, cell ranges)
 	depth  int
-	// quantifier re-parametrisation
-	qvar   string // name of the quantified index being re-parametrised
-	qprim  *Term  // address of the primary slice (nil until chosen)
-	qheap  *Term
-	qp     *Term // absolute-address bound variable
-	qpat   *Term
+	// quantifier re-parametrisation: shared by pointer between the copies of an environment made
+	// while one quantified body is evaluated (old(), lets, macros), chained for nested quantifiers
+	qs *quantState
+}
+
+type quantState struct {
+	qvar  string // name of the quantified index being re-parametrised
+	prim  *Term  // address of the primary slice (nil until chosen)
+	heap  *Term
+	qp    *Term // absolute-address bound variable
+	pat   *Term
+	outer *quantState
 }
 
 func (e *SpecEnv) sub() *SpecEnv {
@@ -363,13 +369,16 @@ func (e *SpecEnv) index(base Value, idx ast.Expr, n ast.Node) Value {
 			return e.c.elemOf(st, b, e.Int(idx))
 		}
 		var addr *Term
-		if e.qvar != "" {
-			if id, ok := idx.(*ast.Ident); ok && id.Name == e.qvar {
-				// re-parametrise the quantifier over the absolute address of the primary slice
-				if e.qprim == nil {
-					e.qprim = b.Addr
-					e.qheap = e.heapFor(b.Elem)
-					e.qpat = Select(e.qheap, e.qp)
+		if id, ok := idx.(*ast.Ident); ok {
+			for q := e.qs; q != nil; q = q.outer {
+				if id.Name == q.qvar {
+					// re-parametrise that quantifier over the absolute address of its primary slice
+					if q.prim == nil {
+						q.prim = b.Addr
+						q.heap = e.heapFor(b.Elem)
+						q.pat = Select(q.heap, q.qp)
+					}
+					break
 				}
 			}
 		}
@@ -380,7 +389,7 @@ func (e *SpecEnv) index(base Value, idx ast.Expr, n ast.Node) Value {
 		if isBoolType(b.Elem) {
 			return BoolV{Ne(t, ConstI(0))}
 		}
-		if t.Op == "select" && e.qvar == "" {
+		if t.Op == "select" && e.qs == nil {
 			if k, ok := intKindOf(b.Elem); ok && k.bits > 0 {
 				lo, hi := k.rng()
 				e.c.setRange(t, lo, hi)
@@ -446,12 +455,7 @@ func (e *SpecEnv) call(n *ast.CallExpr) Value {
 	case "old":
 		ne := *e
 		ne.inOld = true
-		v := ne.Eval(arg(0))
-		if e.qprim == nil && ne.qprim != nil {
-			// the primary access of a quantifier may sit inside old(): keep the re-parametrisation
-			e.qprim, e.qheap, e.qpat = ne.qprim, ne.qheap, ne.qpat
-		}
-		return v
+		return ne.Eval(arg(0))
 	case "prev":
 		// prev(e), in the lemma hints of a loop: the value of e at the head of the iteration
 		if e.prevSt == nil {
@@ -678,11 +682,10 @@ func (e *SpecEnv) quantTerm(kind, kname string, lo, hi *Term, body ast.Expr) *Te
 	k := Var(fmt.Sprintf("%s!%d", kname, id), SInt)
 	probe := e.sub()
 	probe.facts = nil
-	probe.qvar = kname
-	probe.qp = Var(fmt.Sprintf("p!%d", id), SInt)
+	probe.qs = &quantState{qvar: kname, qp: Var(fmt.Sprintf("p!%d", id), SInt), outer: e.qs}
 	probe.bound[kname] = IntV{k}
 	bt := probe.Bool(body)
-	if probe.qprim == nil || kind == "exists" {
+	if probe.qs.prim == nil || kind == "exists" {
 		rng := And(Le(lo, k), Lt(k, hi))
 		if kind == "exists" {
 			return Not(Forall([]*Term{k}, nil, Not(And(rng, bt))))
@@ -691,16 +694,15 @@ func (e *SpecEnv) quantTerm(kind, kname string, lo, hi *Term, body ast.Expr) *Te
 	}
 	// Second pass: substitute k := p - addr(primary); the normal form turns
 	// addr + (p - addr) into p, so the primary access is exactly (select H p).
-	p := probe.qp
+	p := probe.qs.qp
+	prim := probe.qs.prim
 	ev := e.sub()
 	ev.facts = nil
-	ev.qvar = kname
-	ev.qp = p
-	ev.qprim = probe.qprim
-	ev.bound[kname] = IntV{Sub(p, probe.qprim)}
+	ev.qs = &quantState{qvar: kname, qp: p, prim: prim, heap: probe.qs.heap, pat: probe.qs.pat, outer: e.qs}
+	ev.bound[kname] = IntV{Sub(p, prim)}
 	bt = ev.Bool(body)
-	rng := And(Le(Add(probe.qprim, lo), p), Lt(p, Add(probe.qprim, hi)))
-	return Forall([]*Term{p}, []*Term{probe.qpat}, Implies(rng, bt))
+	rng := And(Le(Add(prim, lo), p), Lt(p, Add(prim, hi)))
+	return Forall([]*Term{p}, []*Term{probe.qs.pat}, Implies(rng, bt))
 }
 
 // pureCall: application of a spec function (macro) or of a pure Go function under contract.
